@@ -161,7 +161,7 @@ def r06_2(ctx):
                 for m in ast.walk(fi2.node):
                     if isinstance(m, ast.Assign) and isinstance(m.targets[0], ast.Name) and m.targets[0].id == n.func.value.id and "hybrid_effect_dict" in U(m.value):
                         poppers.add(fi2.qual)
-    exp = {"RZILTransformer.chk_hybrid_dep", "RZILTransformer.emit_final_seq_return", "RZILTransformer.reset", "ILOpsHolder.update_hybrid_ref"}
+    exp = {"RZILTransformer.chk_hybrid_dep", "RZILTransformer.emit_final_seq_return", "RZILTransformer.reset", "ILOpsHolder.update_hybrid_ref", "RZILTransformer.block_item"}
     ctx.check("who may remove pending effects", poppers == exp, str(sorted(exp)), str(sorted(poppers)), "rzilcompiler/Transformer/RZILTransformer.py")
     # only the loop-step site asks for SEQ_THEN_HYB
     sites = []
@@ -309,6 +309,29 @@ def r06_7(ctx):
             ctx.check("resolve_hybrid[no nested pending effects] registers the pair", isinstance(val, AObj) and val.cls == "Sequence", "Sequence([hybrid, set_tmp])", lab(val)[:80], fn_where(idx, fi), nontrivial=False)
 
 
+def block_item_checks(ctx):
+    """a block item whose value is a pending hybrid temporary is replaced by its pending effect (sequenced in place)"""
+    idx = get_index(ctx.env)
+    for pending in (True, False):
+        r = Runner(idx)
+        box = {}
+        def items():
+            v = r.pure("items[0]", vt=mk_vt("t0", True, 32, ("PURE", "HYBRID_LVAR")), cls="LocalVar")
+            r.stubs[("items[0]", "get_name")] = "h_tmp4"
+            return [v]
+        def over():
+            d = {"h_tmp4": eff(r, "pending4"), "h_tmp2": eff(r, "pending2")} if pending else {"h_tmp2": eff(r, "pending2")}
+            box["d"] = d
+            return {"il_ops_holder": AObj("ILOpsHolder", {"hybrid_effect_dict": d, "hybrid_op_count": 5}, label="holder", opaque=True)}
+        fi, outs = r.run("block_item", items, self_over=over)
+        got = [lab(o.value) if o.kind != "raise" else outcome_text(o) for o in outs]
+        exp = ["pending4"] if pending else ["items[0]"]
+        ctx.check(f"block_item[value {'with' if pending else 'without'} pending effect]", got == exp and sorted(box["d"]) == ["h_tmp2"], f"{exp}, other pending effects untouched", f"{got}, pending {sorted(box['d'])}", fn_where(idx, fi))
+    r = Runner(idx)
+    fi, outs = r.run("block_item", lambda: [eff(r, "stmt")])
+    ctx.check("block_item[effect] passes the statement through", [lab(o.value) for o in outs] == ["stmt"], "stmt", str([lab(o.value) for o in outs]), fn_where(idx, fi))
+
+
 @rule("R06.3", "C06", "flush completeness: a value-producing operation whose value is unused (expression statement) is still sequenced at its source position", min_instances=3)
 def r06_3(ctx):
     from .c15 import get_engine
@@ -323,6 +346,7 @@ def r06_3(ctx):
     es = [a for a in gm.rules["expr_stmt"] if len(a.symbols) == 2]
     ctx.need(len(es) == 1, "expr_stmt: `expr ;` alternative not found")
     ctx.note(f"`expr ;` is {gm.shape(es[0], cbs)[0]} (no flushing callback runs for an expression statement)")
+    block_item_checks(ctx)
     sites = {"fbody (top-level Effect filter)": "RZILTransformer.emit_final_seq_return", "selection_stmt: Sequence element": "RZILTransformer.selection_stmt",
              "iteration_stmt: Sequence element": "RZILTransformer.for_loop", "gcc_extended_expr: Sequence element": "RZILTransformer.gcc_extended_expr"}
     hits = {k: f for k, f in ke.findings.items() if f.kind == "D2" and k.endswith("pending hybrid value")}
